@@ -5,10 +5,12 @@ import XsVerif.Model.Defuse
 
 namespace XsVerif.Defuse
 
-/-- abstraction invariant: the buffer is a prefix of the stream `s`, and what the underlying
-    stream still holds is `s` from the furthest point reached -/
+/-- abstraction invariant: the buffer is a prefix of the stream `s`, what the underlying stream
+    still holds is `s` from the furthest point reached, and a growing reader has never been beyond
+    its buffer -/
 def Inv (s : List Nat) (r : Reader) : Prop :=
-  r.buf = s.take r.buf.length ∧ r.rest = s.drop (max r.pos r.buf.length)
+  r.buf = s.take r.buf.length ∧ r.rest = s.drop (max r.pos r.buf.length) ∧
+  (r.grow = true → r.pos ≤ r.buf.length)
 
 theorem Inv.buf_le {s : List Nat} {r : Reader} (h : Inv s r) : r.buf.length ≤ s.length := by
   have := congrArg List.length h.1
@@ -22,10 +24,10 @@ theorem drop_add_min (s : List Nat) (p n : Nat) :
   · rw [Nat.min_eq_right (by omega)]
     rw [List.drop_eq_nil_of_le (by omega), List.drop_eq_nil_of_le (by omega)]
 
-theorem init_inv (size : Nat) (s : List Nat) : Inv s (Reader.init size s) := by
+theorem init_inv (g : Bool) (size : Nat) (s : List Nat) : Inv s (Reader.init g size s) := by
   unfold Inv Reader.init
   simp only [List.length_take]
-  constructor
+  refine ⟨?_, ?_, fun _ => Nat.zero_le _⟩
   · rw [List.take_eq_take_iff]; simp
   · generalize (if size < 8192 then 8192 else size) = b
     by_cases hb : b ≤ s.length
@@ -35,98 +37,240 @@ theorem init_inv (size : Nat) (s : List Nat) : Inv s (Reader.init size s) := by
 theorem split_stream {s : List Nat} {r : Reader} (h : Inv s r) (hp : r.pos < r.buf.length) :
     s.drop r.pos = r.buf.drop r.pos ++ r.rest := by
   have hb := h.buf_le
-  have h2 : r.rest = s.drop r.buf.length := by rw [h.2]; congr 1; omega
+  have h2 : r.rest = s.drop r.buf.length := by rw [h.2.1]; congr 1; omega
   have hs : s = r.buf ++ r.rest := by
     rw [h2]; conv => lhs; rw [← List.take_append_drop r.buf.length s]
     rw [← h.1]
   conv => lhs; rw [hs]
   rw [List.drop_append_of_le_length (by omega)]
 
+/-- appending the next piece of the stream to a prefix of it gives a prefix -/
+theorem prefix_extend {s buf : List Nat} (h : buf = s.take buf.length) (k : Nat) :
+    buf ++ (s.drop buf.length).take k = s.take (buf ++ (s.drop buf.length).take k).length := by
+  have hb : buf.length ≤ s.length := by
+    have := congrArg List.length h; simp at this; omega
+  simp only [List.length_append, List.length_take, List.length_drop]
+  conv => lhs; rw [h]
+  rw [List.length_take, Nat.min_eq_left hb]
+  by_cases hk : k ≤ s.length - buf.length
+  · rw [Nat.min_eq_left hk, List.take_add]
+  · rw [Nat.min_eq_right (by omega), List.take_add]
+    congr 1
+    rw [List.take_of_length_le (by simp; omega), List.take_of_length_le (by simp)]
+
 /-- `read` returns exactly the bytes of the stream at the cursor and keeps the invariant -/
 theorem read_refines {s : List Nat} {r : Reader} (h : Inv s r) (n : Option Nat) :
     (r.read n).1 = (match n with | some k => (s.drop r.pos).take k | none => s.drop r.pos) ∧
     Inv s (r.read n).2 ∧ (r.read n).2.pos = r.pos + (r.read n).1.length ∧
-    (r.read n).2.buf = r.buf := by
+    (r.read n).2.grow = r.grow ∧
+    (r.read n).2.buf.length = if r.grow then max r.buf.length (r.read n).2.pos else r.buf.length := by
   have hb := h.buf_le
-  cases n with
-  | some n =>
-    unfold Reader.read
-    by_cases hp : r.buf.length ≤ r.pos
-    · have hr : r.rest = s.drop r.pos := by rw [h.2]; congr 1; omega
-      simp only [hp, if_true]
-      refine ⟨by rw [hr], ⟨h.1, ?_⟩, by simp, by simp⟩
-      simp only [hr, List.drop_drop, List.length_take, List.length_drop]
-      rw [show max (r.pos + min n (s.length - r.pos)) r.buf.length = r.pos + min n (s.length - r.pos) by omega]
-      rw [drop_add_min]
-    · have hp' : r.pos < r.buf.length := by omega
-      have hs := split_stream h hp'
-      have h2 : r.rest = s.drop r.buf.length := by rw [h.2]; congr 1; omega
-      simp only [hp, if_false]
-      by_cases hn : n ≤ (r.buf.drop r.pos).length
-      · simp only [hn, if_true]
-        refine ⟨by rw [hs, List.take_append_of_le_length hn], ⟨h.1, ?_⟩, by simp, by simp⟩
-        simp only [List.length_take, List.length_drop] at hn ⊢
-        rw [h.2]; congr 1; omega
-      · simp only [hn, if_false]
-        have hn' : (r.buf.drop r.pos).length ≤ n := by omega
-        refine ⟨?_, ⟨h.1, ?_⟩, by simp, by simp⟩
-        · rw [hs, List.take_append, List.take_of_length_le hn']
-        · rw [h2, List.drop_drop]
-          simp only [List.length_append, List.length_take, List.length_drop] at hn ⊢
-          have e : max (r.pos + (r.buf.length - r.pos + min (n - (r.buf.length - r.pos)) (s.length - r.buf.length)))
-              r.buf.length = r.buf.length + min (n - (r.buf.length - r.pos)) (s.length - r.buf.length) := by omega
-          rw [e, drop_add_min]
-  | none =>
-    unfold Reader.read
-    by_cases hp : r.buf.length ≤ r.pos
-    · have hr : r.rest = s.drop r.pos := by rw [h.2]; congr 1; omega
-      simp only [hp, if_true]
-      refine ⟨hr, ⟨h.1, ?_⟩, by simp, by simp⟩
-      simp only [hr, List.length_drop]
-      rw [List.drop_eq_nil_of_le (by omega)]
-    · have hp' : r.pos < r.buf.length := by omega
-      have hs := split_stream h hp'
-      have h2 : r.rest = s.drop r.buf.length := by rw [h.2]; congr 1; omega
-      simp only [hp, if_false]
-      refine ⟨hs.symm, ⟨h.1, ?_⟩, by simp, by simp⟩
-      simp only [List.length_append, List.length_drop, h2]
-      rw [List.drop_eq_nil_of_le (by omega)]
+  obtain ⟨hi1, hi2, hi3⟩ := h
+  cases hg : r.grow with
+  | false =>
+    -- the reader of the tree without the repair: the buffer never changes
+    cases n with
+    | some n =>
+      unfold Reader.read
+      by_cases hp : r.buf.length ≤ r.pos
+      · have hr : r.rest = s.drop r.pos := by rw [hi2]; congr 1; omega
+        simp only [hp, if_true, hg, Bool.false_eq_true, if_false]
+        refine ⟨by rw [hr], ⟨hi1, ?_, by simp [hg]⟩, by simp, by simp [hg], by simp⟩
+        simp only [hr, List.drop_drop, List.length_take, List.length_drop]
+        rw [show max (r.pos + min n (s.length - r.pos)) r.buf.length = r.pos + min n (s.length - r.pos) by omega]
+        rw [drop_add_min]
+      · have hp' : r.pos < r.buf.length := by omega
+        have hs := split_stream ⟨hi1, hi2, hi3⟩ hp'
+        have h2 : r.rest = s.drop r.buf.length := by rw [hi2]; congr 1; omega
+        simp only [hp, if_false, hg, Bool.false_eq_true]
+        by_cases hn : n ≤ (r.buf.drop r.pos).length
+        · simp only [hn, if_true]
+          refine ⟨by rw [hs, List.take_append_of_le_length hn], ⟨hi1, ?_, by simp [hg]⟩, by simp, by simp [hg], by simp⟩
+          simp only [List.length_take, List.length_drop] at hn ⊢
+          rw [hi2]; congr 1; omega
+        · simp only [hn, if_false]
+          have hn' : (r.buf.drop r.pos).length ≤ n := by omega
+          refine ⟨?_, ⟨hi1, ?_, by simp [hg]⟩, by simp, by simp [hg], by simp⟩
+          · rw [hs, List.take_append, List.take_of_length_le hn']
+          · rw [h2, List.drop_drop]
+            simp only [List.length_append, List.length_take, List.length_drop] at hn ⊢
+            have e : max (r.pos + (r.buf.length - r.pos + min (n - (r.buf.length - r.pos)) (s.length - r.buf.length)))
+                r.buf.length = r.buf.length + min (n - (r.buf.length - r.pos)) (s.length - r.buf.length) := by omega
+            rw [e, drop_add_min]
+    | none =>
+      unfold Reader.read
+      by_cases hp : r.buf.length ≤ r.pos
+      · have hr : r.rest = s.drop r.pos := by rw [hi2]; congr 1; omega
+        simp only [hp, if_true, hg, Bool.false_eq_true, if_false]
+        refine ⟨hr, ⟨hi1, ?_, by simp [hg]⟩, by simp, by simp [hg], by simp⟩
+        simp only [hr, List.length_drop]
+        rw [List.drop_eq_nil_of_le (by omega)]
+      · have hp' : r.pos < r.buf.length := by omega
+        have hs := split_stream ⟨hi1, hi2, hi3⟩ hp'
+        have h2 : r.rest = s.drop r.buf.length := by rw [hi2]; congr 1; omega
+        simp only [hp, if_false, hg, Bool.false_eq_true]
+        refine ⟨hs.symm, ⟨hi1, ?_, by simp [hg]⟩, by simp, by simp [hg], by simp⟩
+        simp only [List.length_append, List.length_drop, h2]
+        rw [List.drop_eq_nil_of_le (by omega)]
+  | true =>
+    -- the growing reader: everything read beyond the buffer is appended to it
+    have hpb : r.pos ≤ r.buf.length := hi3 hg
+    have h2 : r.rest = s.drop r.buf.length := by rw [hi2]; congr 1; omega
+    cases n with
+    | some n =>
+      unfold Reader.read
+      by_cases hp : r.buf.length ≤ r.pos
+      · have hpe : r.pos = r.buf.length := by omega
+        simp only [hp, if_true, hg, ↓reduceIte]
+        have hpre := prefix_extend hi1 n
+        refine ⟨by rw [h2, hpe], ⟨?_, ?_, ?_⟩, by simp, by simp [hg], ?_⟩
+        · simp only [h2]; exact hpre
+        · simp only [h2, List.drop_drop, List.length_append, List.length_take, List.length_drop, hpe]
+          rw [show max (r.buf.length + min n (s.length - r.buf.length))
+              (r.buf.length + min n (s.length - r.buf.length)) = r.buf.length + min n (s.length - r.buf.length) by omega]
+          rw [drop_add_min]
+        · intro _; simp [hpe]
+        · simp [hpe]
+      · have hp' : r.pos < r.buf.length := by omega
+        have hs := split_stream ⟨hi1, hi2, hi3⟩ hp'
+        simp only [hp, if_false, hg, ↓reduceIte]
+        by_cases hn : n ≤ (r.buf.drop r.pos).length
+        · simp only [hn, if_true]
+          simp only [List.length_drop] at hn
+          refine ⟨by rw [hs, List.take_append_of_le_length (by simpa using hn)], ⟨hi1, ?_, ?_⟩, by simp, by simp [hg], ?_⟩
+          · simp only [List.length_take, List.length_drop]
+            rw [hi2]; congr 1; omega
+          · intro _; simp only [List.length_take, List.length_drop]; omega
+          · simp only [List.length_take, List.length_drop, if_true]; omega
+        · simp only [hn, if_false]
+          have hn' : (r.buf.drop r.pos).length ≤ n := by omega
+          have hpre := prefix_extend hi1 (n - (r.buf.drop r.pos).length)
+          refine ⟨?_, ⟨?_, ?_, ?_⟩, by simp, by simp [hg], ?_⟩
+          · rw [hs, List.take_append, List.take_of_length_le hn']
+          · simp only [h2]; exact hpre
+          · rw [h2, List.drop_drop]
+            simp only [List.length_append, List.length_take, List.length_drop] at hn ⊢
+            have e : max (r.pos + (r.buf.length - r.pos + min (n - (r.buf.length - r.pos)) (s.length - r.buf.length)))
+                (r.buf.length + min (n - (r.buf.length - r.pos)) (s.length - r.buf.length)) =
+                r.buf.length + min (n - (r.buf.length - r.pos)) (s.length - r.buf.length) := by omega
+            rw [e, drop_add_min]
+          · intro _
+            simp only [List.length_append, List.length_take, List.length_drop]; omega
+          · simp only [List.length_append, List.length_take, List.length_drop, if_true]; omega
+    | none =>
+      unfold Reader.read
+      have hall : r.buf ++ r.rest = s := by
+        rw [h2]; conv => rhs; rw [← List.take_append_drop r.buf.length s]
+        rw [← hi1]
+      by_cases hp : r.buf.length ≤ r.pos
+      · have hpe : r.pos = r.buf.length := by omega
+        simp only [hp, if_true, hg, ↓reduceIte]
+        refine ⟨by rw [h2, hpe], ⟨?_, ?_, ?_⟩, by simp, by simp [hg], ?_⟩
+        · simp only [hall]; simp
+        · simp only [hall]; rw [List.drop_eq_nil_of_le (Nat.le_max_right _ _)]
+        · intro _; simp only [hall, hpe]
+          have := congrArg List.length hall; simp at this; omega
+        · simp only [hall, hpe, if_true]
+          have := congrArg List.length hall; simp at this; omega
+      · have hp' : r.pos < r.buf.length := by omega
+        have hs := split_stream ⟨hi1, hi2, hi3⟩ hp'
+        simp only [hp, if_false, hg, ↓reduceIte]
+        refine ⟨hs.symm, ⟨?_, ?_, ?_⟩, by simp, by simp [hg], ?_⟩
+        · simp only [hall]; simp
+        · simp only [hall]; rw [List.drop_eq_nil_of_le (Nat.le_max_right _ _)]
+        · intro _; simp only [hall, List.length_append, List.length_drop]
+          have := congrArg List.length hall; simp at this; omega
+        · simp only [hall, List.length_append, List.length_drop, if_true]
+          have := congrArg List.length hall; simp at this; omega
 
 theorem seek_refines {s : List Nat} {r r' : Reader} {p : Nat} (h : Inv s r)
-    (hs : r.seek p = some r') : Inv s r' ∧ r'.pos = p ∧ r'.buf = r.buf := by
+    (hs : r.seek p = some r') : Inv s r' ∧ r'.pos = p ∧ r'.buf = r.buf ∧ r'.grow = false := by
   unfold Reader.seek at hs
   split at hs
   · cases hs
   · split at hs
     · cases hs
     · cases hs
-      refine ⟨⟨h.1, ?_⟩, rfl, rfl⟩
+      refine ⟨⟨h.1, ?_, by simp⟩, rfl, rfl, rfl⟩
       simp only
-      rw [h.2]; congr 1; omega
+      rw [h.2.1]; congr 1; omega
 
 /-! ### the scan as a reader script -/
 
 theorem readBlocks_refines {s : List Nat} (k : Nat) :
     ∀ {r : Reader}, Inv s r → r.pos ≤ s.length →
       Inv s (r.readBlocks k) ∧ (r.readBlocks k).pos = min s.length (r.pos + k * blockSize) ∧
-      (r.readBlocks k).buf = r.buf := by
+      (r.readBlocks k).grow = r.grow ∧
+      (r.readBlocks k).buf.length = if r.grow then max r.buf.length (r.readBlocks k).pos else r.buf.length := by
   induction k with
-  | zero => intro r h hp; exact ⟨h, by simp [Reader.readBlocks]; omega, rfl⟩
+  | zero =>
+    intro r h hp
+    refine ⟨h, by simp [Reader.readBlocks]; omega, rfl, ?_⟩
+    simp only [Reader.readBlocks]
+    cases hg : r.grow
+    · simp
+    · have := h.2.2 hg; simp; omega
   | succ k ih =>
     intro r h hp
-    obtain ⟨h1, h2, h3, h4⟩ := read_refines h (some blockSize)
+    obtain ⟨h1, h2, h3, h4, h5⟩ := read_refines h (some blockSize)
     simp only at h1
     have hlen : (r.read (some blockSize)).1.length = min blockSize (s.length - r.pos) := by
       rw [h1]; simp
     have hp' : (r.read (some blockSize)).2.pos ≤ s.length := by rw [h3, hlen]; omega
-    obtain ⟨i1, i2, i3⟩ := ih h2 hp'
-    refine ⟨i1, ?_, by simp only [Reader.readBlocks]; rw [i3, h4]⟩
-    simp only [Reader.readBlocks]
-    rw [i2, h3, hlen]
-    have : (k + 1) * blockSize = blockSize + k * blockSize := by
-      rw [Nat.add_mul]; omega
-    rw [this]
-    omega
+    obtain ⟨i1, i2, i3, i4⟩ := ih h2 hp'
+    refine ⟨i1, ?_, by simp only [Reader.readBlocks]; rw [i3, h4], ?_⟩
+    · simp only [Reader.readBlocks]
+      rw [i2, h3, hlen]
+      have : (k + 1) * blockSize = blockSize + k * blockSize := by
+        rw [Nat.add_mul]; omega
+      rw [this]
+      omega
+    · simp only [Reader.readBlocks]
+      rw [i4, h4, h5]
+      cases hg : r.grow
+      · simp
+      · simp only [if_true]
+        have : (r.read (some blockSize)).2.pos ≤ ((r.read (some blockSize)).2.readBlocks k).pos := by
+          rw [i2]; omega
+        omega
+
+/-- successive block reads deliver consecutive pieces of the stream -/
+theorem readMany_refines {s : List Nat} (ns : List Nat) :
+    ∀ {r : Reader}, Inv s r →
+      (r.readMany ns).1 = (s.drop r.pos).take ns.sum ∧ Inv s (r.readMany ns).2 ∧
+      (r.readMany ns).2.pos = r.pos + (r.readMany ns).1.length ∧ (r.readMany ns).2.grow = r.grow := by
+  induction ns with
+  | nil => intro r h; simp [Reader.readMany, h]
+  | cons n ns ih =>
+    intro r h
+    obtain ⟨h1, h2, h3, h4, -⟩ := read_refines h (some n)
+    simp only at h1
+    obtain ⟨i1, i2, i3, i4⟩ := ih h2
+    simp only [Reader.readMany, List.sum_cons]
+    refine ⟨?_, i2, ?_, by rw [i4, h4]⟩
+    · rw [i1, h1, h3, h1, List.take_add]
+      congr 1
+      simp only [List.length_take, List.length_drop, List.drop_drop]
+      rw [drop_add_min]
+    · rw [i3, h3]; simp only [List.length_append]; omega
+
+/-- every history of operations that raised no OS error keeps the invariant -/
+theorem exec_inv {s : List Nat} (ops : List Op) :
+    ∀ {r r' : Reader}, Inv s r → Reader.exec ops r = some r' → Inv s r' := by
+  induction ops with
+  | nil => intro r r' h he; simp only [Reader.exec, Option.some.injEq] at he; exact he ▸ h
+  | cons op ops ih =>
+    intro r r' h he
+    cases op with
+    | read n => exact ih (read_refines h n).2.1 he
+    | tell => exact ih h he
+    | seek p =>
+      simp only [Reader.exec] at he
+      cases hs : r.seek p with
+      | none => simp [hs] at he
+      | some r1 =>
+        simp only [hs] at he
+        exact ih (seek_refines h hs).1 he
 
 /-! ### traces of a build -/
 
@@ -184,63 +328,63 @@ theorem lastOr_some_iff (pre : List Ev) (e : Ev) (h : lastOr none pre = some e) 
   · cases hn
   · exact h'
 
-theorem plan_ne_noDefuse (m : Mode) (b : BaseClass) (ch : Chan) (hd : isDefused m b = true) :
-    plan m b ch ≠ .noDefuse := by
+theorem plan_ne_noDefuse (v : Variant) (m : Mode) (b : BaseClass) (ch : Chan) (hd : isDefused m b = true) :
+    plan v m b ch ≠ .noDefuse := by
   unfold plan
   simp only [hd, Bool.not_true, Bool.false_eq_true, if_false]
   repeat' split
   all_goals simp
 
-theorem resEvents_ok (m : Mode) (r : Res) : ∀ prev, okFrom m prev (resEvents m r) := by
+theorem resEvents_ok (v : Variant) (m : Mode) (r : Res) : ∀ prev, okFrom m prev (resEvents v m r) := by
   intro prev
   by_cases hd : isDefused m r.base = true
-  · have hp : plan m r.base r.ch ≠ .noDefuse := plan_ne_noDefuse m r.base r.ch hd
-    by_cases ho : resOutcome m r = .parsed
+  · have hp : plan v m r.base r.ch ≠ .noDefuse := plan_ne_noDefuse v m r.base r.ch hd
+    by_cases ho : resOutcome v m r = .parsed
     · have hmr : r.mustRefuse = false := by
         unfold resOutcome outcomeDoc at ho
-        cases hpl : plan m r.base r.ch <;> cases hm : r.mustRefuse <;> simp_all [outcome]
-      have hnr : plan m r.base r.ch ≠ .refuse := by
+        cases hpl : plan v m r.base r.ch <;> cases hm : r.mustRefuse <;> simp_all [outcome]
+      have hnr : plan v m r.base r.ch ≠ .refuse := by
         intro e
         unfold resOutcome outcomeDoc at ho
         simp [e, outcome] at ho
       unfold resEvents
-      cases hpl : plan m r.base r.ch <;> simp_all [okFrom, parseOk]
+      cases hpl : plan v m r.base r.ch <;> simp_all [okFrom, parseOk]
     · unfold resEvents
-      cases hpl : plan m r.base r.ch <;> simp_all [okFrom, parseOk]
+      cases hpl : plan v m r.base r.ch <;> simp_all [okFrom, parseOk]
   · have hd' : isDefused m r.base = false := by simpa using hd
     unfold resEvents
-    cases hpl : plan m r.base r.ch <;> by_cases ho : resOutcome m r = .parsed <;>
+    cases hpl : plan v m r.base r.ch <;> by_cases ho : resOutcome v m r = .parsed <;>
       simp [okFrom, parseOk, hd', ho]
 
-theorem build_ok (m : Mode) (f : Forest) : ∀ prev, okFrom m prev (build m f).1 := by
+theorem build_ok (v : Variant) (m : Mode) (f : Forest) : ∀ prev, okFrom m prev (build v m f).1 := by
   induction f with
   | nil => intro prev; simp [build, okFrom]
   | cons r k c s ihc ihs =>
     intro prev
-    have hr := resEvents_ok m r
-    by_cases ho : resOutcome m r = .parsed
-    · cases hc : (build m c).2 with
+    have hr := resEvents_ok v m r
+    by_cases ho : resOutcome v m r = .parsed
+    · cases hc : (build v m c).2 with
       | ok =>
-        have e : (build m (.cons r k c s)).1 = (resEvents m r ++ (build m c).1) ++ (build m s).1 := by
+        have e : (build v m (.cons r k c s)).1 = (resEvents v m r ++ (build v m c).1) ++ (build v m s).1 := by
           simp [build, ho, hc]
         rw [e, okFrom_append, okFrom_append]
         exact ⟨⟨hr _, ihc _⟩, ihs _⟩
       | raised o =>
         by_cases hs : swallowed k o = true
-        · have e : (build m (.cons r k c s)).1 = (resEvents m r ++ (build m c).1) ++ (build m s).1 := by
+        · have e : (build v m (.cons r k c s)).1 = (resEvents v m r ++ (build v m c).1) ++ (build v m s).1 := by
             simp [build, ho, hc, hs]
           rw [e, okFrom_append, okFrom_append]
           exact ⟨⟨hr _, ihc _⟩, ihs _⟩
-        · have e : (build m (.cons r k c s)).1 = resEvents m r ++ (build m c).1 := by
+        · have e : (build v m (.cons r k c s)).1 = resEvents v m r ++ (build v m c).1 := by
             simp [build, ho, hc, hs]
           rw [e, okFrom_append]
           exact ⟨hr _, ihc _⟩
-    · by_cases hs : swallowed k (resOutcome m r) = true
-      · have e : (build m (.cons r k c s)).1 = resEvents m r ++ (build m s).1 := by
+    · by_cases hs : swallowed k (resOutcome v m r) = true
+      · have e : (build v m (.cons r k c s)).1 = resEvents v m r ++ (build v m s).1 := by
           simp [build, ho, hs]
         rw [e, okFrom_append]
         exact ⟨hr _, ihs _⟩
-      · have e : (build m (.cons r k c s)).1 = resEvents m r := by
+      · have e : (build v m (.cons r k c s)).1 = resEvents v m r := by
           simp [build, ho, hs]
         rw [e]
         exact hr _
